@@ -993,6 +993,26 @@ func c09R5(c *Ctx) {
 				}
 			}
 		}
+		// or: built by a helper that returns nil when its configuration is not enabled
+		if ex, ok := strip(ver).(*ssa.Extract); ok && ex.Index == 0 {
+			if hc, ok := ex.Tuple.(*ssa.Call); ok {
+				if sc := hc.Call.StaticCallee(); sc != nil && inModule(sc) && sc.Blocks != nil {
+					hfs := computeFacts(sc)
+					for _, r := range returnsOf(sc) {
+						rv := returnValues(r)
+						if len(rv) > 0 && isNilConst(rv[0]) && (len(rv) < 2 || isNilConst(rv[len(rv)-1])) {
+							// a nil verifier without an error: only under `Enabled()` false of the helper's own config parameter
+							if anyFact(hfs.At(r.Block()), func(f Fact) bool {
+								cl, ok := f.V.(*ssa.Call)
+								return ok && !f.T && strings.HasSuffix(commonName(&cl.Call), "auth.Config).Enabled")
+							}) {
+								nilWhenDisabled = true
+							}
+						}
+					}
+				}
+			}
+		}
 		c.check(ownOK && foreign == "" && nilWhenDisabled, "C09.R5", key, calls[0].Pos(), "verifier derives from "+strings.Join(port.own, "+")+" only and is nil when that is disabled",
 			fmt.Sprintf("the verifier handed to this port depends on %v (own config present: %v, foreign config: %q, nil when disabled: %v)", got, ownOK, foreign, nilWhenDisabled))
 	}
